@@ -43,6 +43,30 @@ Theorem C28_interrupted_never_failed : forall sl st, lists_agree sl st ->
 Proof. exact interrupted_never_failed. Qed.
 Print Assumptions C28_interrupted_never_failed.
 
+(* the verdict on RAW scheduler text: sacct's stdout is parsed by the model of _sacct_re; for every stream of
+   accounting answers that are empty or a printed accounting line (job id, blanks, state word, optional '+',
+   blanks, code:signal, anything) the verdict is the one the text's state word and exit code call for *)
+Theorem C28_slurm_verdict_raw : forall sl st, lists_agree sl st ->
+  forall errfile sq answers,
+    forallb (fun a => match a with None => true | Some l => wf_line l end) answers = true ->
+    let '(v, t) := poll_loop sl false errfile sq (map parse_sacct (map render_ans answers)) in
+    (outcome_of v, count_requeues t) = decide true (reports st sq (map ans_of answers)).
+Proof. exact verdict_raw. Qed.
+Print Assumptions C28_slurm_verdict_raw.
+
+Theorem C28_parse_rendered : forall l, wf_line l = true -> parse_sacct (render_line l) = ans_of (Some l).
+Proof. exact parse_rendered. Qed.
+Print Assumptions C28_parse_rendered.
+
+(* outside that language: an untruncated "CANCELLED by <uid>" is read as status <uid> => failed, not requeued *)
+Theorem C28_refuted_cancelled_by :
+  parse_sacct "123  CANCELLED by 1000  0:0" = SaLine "1000" 0 /\
+  fst (poll_loop sl0 false (Some ["x"; "Exception: boom"; ""]%string) [{| sq_stdout := ""; sq_stderr := "" |}]
+                 [parse_sacct "123  CANCELLED by 1000  0:0"]) = Failed "boom" /\
+  classify st0 (SaLine "CANCELLED" 0) = Interrupted.
+Proof. exact refuted_cancelled_by. Qed.
+Print Assumptions C28_refuted_cancelled_by.
+
 Theorem C28_submit_errors : forall sl c s,
   (sb_rc s <> 0 -> slurm_run sl c s = (sbatch_argv c, SubmitError, [])) /\
   (sb_rc s = 0 -> first_digits (sb_stdout s) = None -> slurm_run sl c s = (sbatch_argv c, NoJobId, [])).
